@@ -210,7 +210,42 @@ def _find_lcas(
             results.append((dt, cmt))
     results.sort(key=lambda x: x[0])
     lcas = [cmt for dt, cmt in results]
+    if len(lcas) > 1:
+        # With skewed or tied commit times a common ancestor can be popped
+        # (and recorded) before a descendant that is also a common ancestor
+        # gets the chance to mark it _DNC. Like git's remove_redundant(),
+        # drop every candidate that is reachable from another candidate.
+        lcas = _remove_redundant(lcas, lookup_parents, shallows)
     return lcas
+
+
+def _remove_redundant(
+    cands: list[ObjectID],
+    lookup_parents: Callable[[ObjectID], list[ObjectID]],
+    shallows: set[ObjectID] | None = None,
+) -> list[ObjectID]:
+    """Remove candidates that are proper ancestors of another candidate."""
+    candset = set(cands)
+    redundant: set[ObjectID] = set()
+    for cand in cands:
+        seen = {cand}
+        todo = [cand]
+        while todo:
+            cmt = todo.pop()
+            try:
+                parents = lookup_parents(cmt)
+            except KeyError:
+                if shallows is not None and shallows:
+                    continue
+                raise
+            for pcmt in parents:
+                if pcmt in seen:
+                    continue
+                seen.add(pcmt)
+                if pcmt in candset:
+                    redundant.add(pcmt)
+                todo.append(pcmt)
+    return [cmt for cmt in cands if cmt not in redundant]
 
 
 # actual git sorts these based on commit times
